@@ -169,12 +169,16 @@ LEVEL_TEXT["C07"] = {
 }
 
 PROPS["C14"] = {
-    "targets": [seq("props/C14_stop_history.cpp", 20000, 50, 300000, 600, shards=6)],
+    "targets": [seq("props/C14_stop_history.cpp", 20000, 50, 300000, 600, shards=6),
+                vt("props/C14_stop_vt.cpp", 15000, 60, 150000, 600, shards=6)],
     "rule": "history part: case = 1..24 commands over 4 stop_source slots, 4 stop_token slots and 6 stop_callback slots (construct, nostopstate, "
             "copy/move construct, copy/move/self assign, swap, destroy, get_token, request_stop, register callback whose body may destroy itself, "
             "destroy another callback or register a further one, deregister); after every command stop_possible()/stop_requested() of every live "
             "handle, request_stop() results and callback run counts are compared with a reference model; non-trivial iff the history assigns "
-            "over a source that owned a different state or has a callback body action. race part (E-vt): see per_target; distinct by hash",
+            "over a source that owned a different state or has a callback body action. race part (E-vt): 1..3 concurrent request_stop callers x 1..3 "
+            "callbacks registered / held / destroyed by their own logical threads, bodies that step, destroy themselves or another callback, under a "
+            "schedule tape with decision points at the stopper loop (before/after execute) and at remove_callback; non-trivial iff >=2 racing "
+            "stoppers or a deregistration overlapped the stopper loop; distinct by hash",
     "floor": {"quick": 200, "thorough": 2000},
     "assumptions": ["self-move-assignment is not generated", "callbacks destroyed by other callbacks during request_stop are only required to run at most once"],
 }
